@@ -19,10 +19,10 @@ MCNP expression, for all sense assignments; invariance of the tree under all
 layouts of the layout family.'''
 import itertools
 import json
+import os
 import random
 import time
 
-import c11_peg
 import c11_refparse
 import common
 import mcnpref
@@ -39,6 +39,8 @@ THEOREMS = ['C11_inverse_den', 'C11_inverse_complcell_rejects',
             'C11_parse_sound', 'C11_lex_sound', 'C11_get_ast_sound',
             'C11_split_card', 'C11_card_geometry',
             'C11_get_ast_accepts_iff',
+            'C11_handover_no_complement', 'C11_handover_loop',
+            'C11_deck_end_to_end',
             'C11_nested_refuted']
 TRUSTED = [
     'hand-written model coq/C11/Model.v: lexer + pushdown precedence parser '
@@ -75,21 +77,17 @@ HEADER = ('From Coq Require Import List NArith ZArith Bool String Ascii.\n'
 
 CLS_NESTED = 'nested_complement_of_cellref'
 ALPHABET = '12-#(): .'
+ALPHABET3 = '123-#(): .'
 FP_P = 2147483647
 
 
 # ---- implementation side --------------------------------------------------
 
-def impl_get_ast(text, plain=False):
-    '''('ok', tree) | ('err', 'EParse'|'EAttribute').  plain: parse with the
-    shared shim instead of its memoising subclass (cross check).'''
+def impl_get_ast(text):
+    '''('ok', tree) | ('err', 'EParse'|'EAttribute')'''
+    import MIP.geom.parsegeom as pg
     import tatsu.exceptions
-    pg, plain_parser = c11_peg.install()
     try:
-        if plain:
-            from MIP.geom.semantics import GeomSemantics
-            return ('ok', canon(plain_parser.parse(
-                pg.normalize(text), semantics=GeomSemantics())))
         return ('ok', canon(pg.get_ast(text)))
     except tatsu.exceptions.ParseException:
         return ('err', 'EParse')
@@ -612,6 +610,81 @@ def sweep_expr(res, ref, e, text, out, origin):
     return True
 
 
+class Rec:
+    '''picklable stand-in for common.Result inside worker processes'''
+
+    def __init__(self):
+        self.counts, self.violations, self.extra = {}, [], {}
+
+    def count(self, key, n=1):
+        self.counts[key] = self.counts.get(key, 0) + n
+
+    def violation(self, *args, **kwargs):
+        if len(self.violations) < 200:
+            self.violations.append((args, kwargs))
+
+
+def exhaustive_job(job):
+    '''one bucket of the exhaustive tie: implementation results of
+    prefix + s for every s over `alphabet` with len(s) in `lens`'''
+    alphabet, prefix, lens, _dom = job
+    rec, ref = Rec(), opaque_ref()
+    acc = total = n = 0
+    nontrivial = []
+    for k in lens:
+        for tup in itertools.product(alphabet, repeat=k):
+            text = prefix + ''.join(tup)
+            out = impl_get_ast(text)
+            n += 1
+            if out[0] == 'ok':
+                acc += 1
+            if out[0] == 'ok' or out[1] == 'EAttribute':
+                nontrivial.append(text)
+            rec.count('exhaustive:' + (out[0] if out[0] == 'ok' else out[1]))
+            total = (total + h_str(text) * h_res(out)) % FP_P
+            wellformed(rec, ref, text, out, 'exhaustive')
+    return {'fp': (acc, total), 'n': n, 'nontrivial': nontrivial,
+            'counts': rec.counts, 'violations': rec.violations,
+            'samples': rec.extra.get('accepted_not_wellformed_samples', [])}
+
+
+COVERAGE_CARDS = [
+    '1 0 -1 2', '12 3 -2.7 #5 (1:-2)imp:n=1 u=2', '7 4 1.0E-3(1:2) 3 u=2',
+    '5 0 #(1) *fill=4 (1 0 0)', '5 0', '5a 0 1', '9 2 (1 2)', '  3 00  -1  ',
+]
+
+
+def coverage_phase(res):
+    '''the hand-written corpora (expressions, known-finding texts, cell
+    tables incl. lattice cells, cell cards) under a line tracer restricted to
+    the anchored functions: every line inside the property's input language
+    must be executed'''
+    import c11_cov
+    cov = c11_cov.LineCov(c11_cov.anchored_functions())
+    with cov:
+        for text, _ in CORPUS + CORPUS_KNOWN:
+            impl_get_ast(text)
+        for texts, lat, target, _ in TABLE_CORPUS:
+            impl_complement(texts, set(lat), target)
+            impl_loop_abort(texts, set(lat))
+        impl_complement({1: '1', 2: '#9'}, set(), 2)          # KeyError
+        for card in COVERAGE_CARDS:
+            impl_split(card)
+    total, missing = cov.missing(c11_cov.UNREACHABLE)
+    res.obligation(f'coverage: the corpora execute every line of the anchored '
+                   f'functions inside the input language ({total} lines of '
+                   f'{len(cov.codes)} code objects)', not missing,
+                   f'never executed: {missing[:6]}')
+    res.extra['anchored_lines'] = total
+    if missing:
+        res.violation('harness-error',
+                      'the corpora no longer reach these lines of the '
+                      f'anchored code: {missing[:8]}',
+                      {'theorem_or_correspondence': 'coverage',
+                       'input': {'lines': [list(m) for m in missing[:20]]}},
+                      found_input=False)
+
+
 def wellformed(res, ref, text, out, origin):
     '''arbitrary text: when the independent reader (c11_refparse, written
     from the manual) finds an expression, the property is checked on it; a
@@ -631,8 +704,9 @@ def run(res, tier, seed, proofs_ok):
     quick = tier == 'quick'
     timings = {}
     t0 = time.time()
-    res.rule = ('exhaustive: every string of length <= L over "12-#(): ." '
-                '(L=5 quick, 6 thorough) by fingerprints; explicit cases: '
+    res.rule = ('exhaustive: every string of length <= L over "123-#(): ." '
+                '(L=5 quick, 6 thorough) and, thorough, every string of '
+                'length 7 over "12-#(): .", by fingerprints; explicit cases: '
                 'hand-written corpus, token soups (with +, two-digit numbers, '
                 'facets), every expression with <= 3 (quick) / 4 (thorough) '
                 'operands in 64 layouts (a sample of 16 / 8 of them for the largest size of the tier), random expressions (depth <= 5, '
@@ -673,70 +747,81 @@ def run(res, tier, seed, proofs_ok):
                           f'{out[1]}',
                           {'input': {'text': text}, 'observed': out},
                           found_input=True)
-    # the memoising parser used here against the shared shim
-    n_cross, n_diff = 0, 0
-    for text in itertools.chain((t for t, _ in CORPUS),
-                                (t for t, _ in CORPUS_KNOWN),
-                                strings_upto('', 4)):
-        n_cross += 1
-        if impl_get_ast(text) != impl_get_ast(text, plain=True):
-            n_diff += 1
-            res.violation('harness-error',
-                          f'c11_peg.FastParser and shim_peg.Parser differ on '
-                          f'{text!r}', {'input': {'text': text}},
-                          found_input=False)
-    res.obligation(f'harness: memoising PEG = shared shim on {n_cross} texts',
-                   n_diff == 0, f'{n_diff} differ')
+    coverage_phase(res)
     timings['corpus'] = time.time() - t0
 
     # ---- 2. exhaustive parse tie by fingerprints -------------------------
+    # domain A: every string of length <= 5 (quick) / 6 (thorough) over
+    #   "123-#(): ." (10 characters), buckets = 2-character prefixes;
+    # domain B (thorough): every string of length exactly 7 over "12-#(): ."
+    #   (9 characters), buckets = 3-character prefixes.
+    # The implementation side is sharded over worker processes (fork).
     t0 = time.time()
     max_len = 5 if quick else 6
-    short = [''] + list(ALPHABET)
+    short = [''] + list(ALPHABET3)
     for text in short:
         out = impl_get_ast(text)
         explicit.add(text, out, 'exhaustive-short')
         res.seen(text, nontrivial=out[0] == 'ok')
-    prefixes = [a + b for a in ALPHABET for b in ALPHABET]
-    impl_fp, bucket_out = {}, {}
-    n_exh = len(short)
-    n_acc = 0
-    for pre in prefixes:
-        acc, total = 0, 0
-        for text in strings_upto(pre, max_len - 2):
-            out = impl_get_ast(text)
-            n_exh += 1
-            if out[0] == 'ok':
-                acc += 1
-            nontrivial = out[0] == 'ok' or out[1] == 'EAttribute'
-            res.seen(text, nontrivial=nontrivial)
-            res.count('exhaustive:' + (out[0] if out[0] == 'ok' else out[1]))
-            total = (total + h_str(text) * h_res(out)) % FP_P
-            wellformed(res, ref, text, out, 'exhaustive')
-        impl_fp[pre] = (acc, total)
-        n_acc += acc
+    jobs = [(ALPHABET3, a + b, list(range(max_len - 1)), 'A')
+            for a in ALPHABET3 for b in ALPHABET3]
+    if not quick:
+        jobs += [(ALPHABET, a + b + c, [4], 'B')
+                 for a in ALPHABET for b in ALPHABET for c in ALPHABET]
+    import multiprocessing
+    procs = max(1, min(8, (os.cpu_count() or 2) - 1))
+    with multiprocessing.get_context('fork').Pool(procs) as pool:
+        results = pool.map(exhaustive_job, jobs, chunksize=2)
+    n_exh = {'A': len(short), 'B': 0}
+    n_acc = {'A': 0, 'B': 0}
+    for job, r in zip(jobs, results):
+        dom = job[3]
+        n_exh[dom] += r['n']
+        n_acc[dom] += r['fp'][0]
+        res.evaluations += r['n'] - len(r['nontrivial'])
+        for text in r['nontrivial']:
+            res.seen(text)
+        for key, val in r['counts'].items():
+            res.count(key, val)
+        for args, kwargs in r['violations']:
+            res.violation(*args, **kwargs)
+        extra = res.extra.setdefault('accepted_not_wellformed_samples', [])
+        extra.extend(r['samples'][:max(0, 12 - len(extra))])
     timings['exhaustive-impl'] = time.time() - t0
     t0 = time.time()
-    fp_cases = [cpair(cstr(pre), cn(impl_fp[pre][0]), cn(impl_fp[pre][1]))
-                for pre in prefixes]
-    check = (f'(fun c : string * N * N => let \'(p, a, h) := c in '
-             f'let r := bucket_fp p {max_len - 2} in '
-             f'N.eqb (fst r) a && N.eqb (snd r) h)')
-    bad, errs = common.run_case_files('c11_fp', HEADER, 'string * N * N',
-                                      check, fp_cases, chunk=6)
-    res.obligation(f'tie:parse exhaustive ({n_exh} strings of length <= '
-                   f'{max_len} over {ALPHABET!r}, {n_acc} accepted; 81 '
-                   'buckets, accepted count and result fingerprint equal)',
-                   not bad and not errs,
-                   f'buckets differing: {[prefixes[i] for i in bad]} '
-                   f'{errs[:1]}')
+    for dom, what in (('A', f'length <= {max_len} over {ALPHABET3!r}'),
+                      ('B', f'length 7 over {ALPHABET!r}')):
+        djobs = [(job, r) for job, r in zip(jobs, results) if job[3] == dom]
+        if not djobs:
+            continue
+        fp_cases = [cpair(cstr(job[1]), cn(r['fp'][0]), cn(r['fp'][1]))
+                    for job, r in djobs]
+        model_fp = (f'bucket_fp alpha3 p {max_len - 2}' if dom == 'A'
+                    else 'bucket_fp_exact alpha p 4')
+        check = (f'(fun c : string * N * N => let \'(p, a, h) := c in '
+                 f'let r := {model_fp} in '
+                 f'N.eqb (fst r) a && N.eqb (snd r) h)')
+        bad, errs = common.run_case_files(
+            f'c11_fp{dom}', HEADER, 'string * N * N', check, fp_cases,
+            chunk=7 if dom == 'A' else 12)
+        res.obligation(f'tie:parse exhaustive {dom} ({n_exh[dom]} strings of '
+                       f'{what}, {n_acc[dom]} accepted; {len(djobs)} buckets, '
+                       'accepted count and result fingerprint equal)',
+                       not bad and not errs,
+                       f'buckets differing: {[djobs[i][0][1] for i in bad]} '
+                       f'{errs[:1]}')
+        for idx in bad[:3]:            # re-run the bucket case by case
+            alphabet, pre, lens, _ = djobs[idx][0]
+            for k in lens:
+                for tup in itertools.product(alphabet, repeat=k):
+                    text = pre + ''.join(tup)
+                    explicit.add(text, impl_get_ast(text),
+                                 'exhaustive-bucket')
     res.extra['exhaustive'] = True
-    res.extra['exhaustive_domain'] = (f'all {n_exh} strings of length <= '
-                                      f'{max_len} over {ALPHABET!r}')
-    for idx in bad[:3]:            # re-run the bucket case by case
-        pre = prefixes[idx]
-        for text in strings_upto(pre, max_len - 2):
-            explicit.add(text, impl_get_ast(text), 'exhaustive-bucket')
+    res.extra['exhaustive_domain'] = (
+        f'all {n_exh["A"]} strings of length <= {max_len} over {ALPHABET3!r}'
+        + ('' if quick else f' and all {n_exh["B"]} strings of length 7 over '
+                            f'{ALPHABET!r}'))
     timings['exhaustive-coq'] = time.time() - t0
 
     # ---- 3. token soups ---------------------------------------------------
@@ -872,7 +957,39 @@ def run(res, tier, seed, proofs_ok):
     res.extra['timings_s'] = {k: round(v, 1) for k, v in timings.items()}
 
 
-def gen_table(rng):
+def has_compl(tree):
+    if tree[0] == '^':
+        return True
+    if tree[0] == 's':
+        return False
+    return has_compl(tree[1]) or has_compl(tree[2])
+
+
+# (cells in dictionary order, lattice cells, target, the complement-free tree
+# MCNP's reading gives for the target — hand-written)
+TABLE_CORPUS = [
+    ({1: '-1.2 +3', 2: '#1'}, (), 2, (':', L(1, 2), L(-3))),
+    ({1: '+1.1:-2.3', 2: '#1 +4.5'}, (), 2,
+     ('*', ('*', L(-1, 1), L(2, 3)), L(4, 5))),
+    ({1: '1.1 -2', 2: '#1 : +3.4', 3: '#2 #1'}, (), 3,
+     ('*', ('*', ('*', L(1, 1), L(-2)), L(-3, 4)), (':', L(-1, 1), L(2)))),
+    ({3: '#2 #1', 2: '#1 : +3.4', 1: '1.1 -2'}, (), 3,
+     ('*', ('*', ('*', L(1, 1), L(-2)), L(-3, 4)), (':', L(-1, 1), L(2)))),
+    ({1: '+007.1 -08', 2: '# 1:#(+007.1)'}, (), 2,
+     (':', (':', L(-7, 1), L(8)), L(-7, 1))),
+    # complement of a lattice cell: first surface of the cell and its opposite,
+    # facet kept
+    ({5: '-7.1 +7.2 -8', 6: '#5 9'}, (5,), 6,
+     ('*', ('*raw', L(-7, 1), L(7, 1)), L(9))),
+    ({5: '(+4.3:1) -8', 6: '1:#5'}, (5,), 6,
+     (':', L(1), ('*raw', L(4, 3), L(-4, 3)))),
+    # a lattice cell that is a single surface; one that complements a cell
+    ({5: '7.2', 6: '#5 1'}, (5,), 6, ('*', ('*raw', L(7, 2), L(-7, 2)), L(1))),
+    ({3: '1', 5: '-2 #3', 6: '#5'}, (5,), 6, ('*raw', L(-2), L(2))),
+]
+
+
+def gen_table(rng, facets=False):
     '''acyclic table: cell k may reference cells listed before it'''
     n_cells = rng.randint(2, 5)
     ids = list(dict.fromkeys(rng.randint(1, 40) for _ in range(n_cells)))
@@ -887,29 +1004,71 @@ def gen_table(rng):
                 break
         else:
             e = ('s', 1, None)
-        exprs[cid] = e
+        exprs[cid] = add_facets(rng, e) if facets else e
     return ids, exprs
+
+
+def add_facets(rng, e):
+    '''give half of the literals a facet suffix'''
+    if e[0] == 's':
+        return ('s', e[1], rng.randint(1, 6)) if rng.random() < 0.5 else e
+    if e[0] in ('*', ':'):
+        return (e[0], add_facets(rng, e[1]), add_facets(rng, e[2]))
+    if e[0] in ('#', 'p'):
+        return (e[0], add_facets(rng, e[1]))
+    return e
 
 
 def run_complement(res, rng, n_tab):
     cases, meta = [], []
     loop_cases, loop_meta = [], []
-    for i in range(n_tab):
-        ids, exprs = gen_table(rng)
-        lattice = {cid for cid in ids[:-1] if rng.random() < 0.1}
-        fault = None
-        if rng.random() < 0.08:
-            fault = rng.choice(['dangling', 'cycle'])
-            extra = ('#c', 99 if fault == 'dangling' else ids[-1])
-            exprs[ids[0]] = ('*', exprs[ids[0]], extra)
-        # dictionary order of the table is shuffled: the loop of
-        # ConstructVolumeT4 must not depend on it
-        order = ids[:]
-        rng.shuffle(order)
-        texts = {cid: render(exprs[cid], random_layout(rng))
-                 for cid in order}
-        target = ids[-1]
+    for i in range(len(TABLE_CORPUS) + n_tab):
+        expected = None
+        if i < len(TABLE_CORPUS):
+            # hand-written tables: facets, '+', leading zeros, lattice cell
+            ctexts, clat, target, expected = TABLE_CORPUS[i]
+            ids = order = list(ctexts)
+            texts, lattice, fault = dict(ctexts), set(clat), None
+            exprs = {cid: c11_refparse.parse(t) for cid, t in texts.items()}
+            res.count('complement:corpus')
+        else:
+            ids, exprs = gen_table(rng, facets=i % 3 == 0)
+            lattice = {cid for cid in ids[:-1] if rng.random() < 0.1}
+            fault = None
+            if rng.random() < 0.08:
+                fault = rng.choice(['dangling', 'cycle'])
+                extra = ('#c', 99 if fault == 'dangling' else ids[-1])
+                exprs[ids[0]] = ('*', exprs[ids[0]], extra)
+            # dictionary order of the table is shuffled: the loop of
+            # ConstructVolumeT4 must not depend on it
+            order = ids[:]
+            rng.shuffle(order)
+            lay = random_layout(rng)
+            if i % 4 == 0:
+                lay['plus'] = True
+            texts = {cid: render(exprs[cid], lay) for cid in order}
+            target = ids[-1]
+        if any('.' in t for t in texts.values()):
+            res.count('complement:tables-with-facets')
+        if any('+' in t for t in texts.values()):
+            res.count('complement:tables-with-plus-sign')
         out = impl_complement(texts, lattice, target)
+        if expected is not None and out != ('ok', expected):
+            res.violation('impl-violation',
+                          f'pot_complement on cell {target} of {texts} '
+                          f'(lattice {sorted(lattice)}) should give '
+                          f'{expected}, implementation gives {out}',
+                          {'input': {'cells': texts, 'lattice': sorted(lattice),
+                                     'target': target},
+                           'expected': expected, 'observed': out},
+                          found_input=True)
+        if out[0] == 'ok' and has_compl(out[1]):
+            res.violation('impl-violation',
+                          f"hand-over: a '^' node is left after pot_complement "
+                          f'on cell {target} of {texts}: {out[1]}',
+                          {'input': {'cells': texts, 'lattice': sorted(lattice),
+                                     'target': target}, 'observed': out},
+                          found_input=True)
         parsed = {cid: impl_get_ast(t)[1] for cid, t in texts.items()}
         table = clist(cpair(cn(cid), f'(mkCell {coq_ast(parsed[cid])} '
                                      f'{cbool(cid in lattice)})')
@@ -928,6 +1087,14 @@ def run_complement(res, rng, n_tab):
                                       for cid, tree in lout[1]) + ')'
             else:
                 want = f'(Err {lout[1]})'
+            if lout[0] == 'ok' and any(has_compl(t) for _, t in lout[1]):
+                res.violation('impl-violation',
+                              "hand-over: a '^' node is left after the "
+                              f'complement loop on {texts}: {lout[1]}',
+                              {'input': {'cells': texts,
+                                         'lattice': sorted(lattice),
+                                         'target': target}, 'observed': lout},
+                              found_input=True)
             loop_cases.append(cpair(ltable, want))
             loop_meta.append((texts, sorted(lattice), lout))
             res.count('loop:' + (lout[0] if lout[0] == 'ok' else lout[1]))
@@ -1021,6 +1188,19 @@ def impl_split(card):
         return ('err', 'EValue')
 
 
+# cell cards with the (geometry, options) the card format prescribes,
+# hand-written; one per card shape a mutation was once missed on
+CARD_CORPUS = [
+    ('1 0 -1 2', (' -1 2', '')),
+    ('1 0 -1 2 imp:n=1', (' -1 2 ', 'imp:n=1')),
+    ('12 3 -2.7 #5 (1:-2)imp:n=1 u=2', (' #5 (1:-2)', 'imp:n=1 u=2')),
+    ('7 4 1.0E-3(1:2) 3 u=2', ('(1:2) 3 ', 'u=2')),        # M19
+    ('3 00 -1 u=2', (' -1 ', 'u=2')),                       # M21
+    ('5 0 #(1) *fill=4 (1 0 0)', (' #(1) ', '*fill=4 (1 0 0)')),
+    (' 8 2 6.02e-2 1:#3 VOL=1', (' 1:#3 ', 'VOL=1')),
+]
+
+
 def run_split(res, rng, texts):
     '''cellcard.split: sweep (the geometry part of a card parses like the
     expression, options intact) and tie with Model.split_card (geometry and
@@ -1040,12 +1220,24 @@ def run_split(res, rng, texts):
         res.count('split-tie:' + (got[0] if got[0] == 'ok' else got[1]))
 
     seen_cards = set()
+    for card, want in CARD_CORPUS:
+        tie(card)
+        got = impl_split(card)
+        res.seen(card)
+        if got != ('ok',) + want:
+            n_bad += 1
+            res.violation('impl-violation',
+                          f'cell card {card!r} should split into {want}, '
+                          f'implementation gives {got}',
+                          {'input': {'card': card}, 'expected': want,
+                           'observed': got}, found_input=True)
     for text in texts:
         if not text.strip():
             continue
         want = impl_get_ast(text)
         opts = rng.choice(OPTIONS)
-        mat = rng.choice(['0', '3 -2.7', '12 0.0602', '1 1.0-3', '00', '7 +1'])
+        mat = rng.choice(['0', '3 -2.7', '12 0.0602', '1 1.0-3', '00', '7 +1',
+                          '4 1.0E-3', '5 6.02e-2'])
         glue = ' ' * rng.choice((1, 1, 2))
         if opts and text.rstrip().endswith(')') and rng.random() < 0.3:
             glue = ''            # "...)imp:n=1" is legal
